@@ -58,6 +58,8 @@ class Builder:
     self.macros = macros
     self.counter = 0
     self.used = set()
+    self.coln_p = 0.12
+    self.atom_bound = set()
 
   def fresh(self, used):
     for v in VARS:
@@ -100,6 +102,12 @@ class Builder:
           nargs.append((n, e))
     if has_val:
       nargs.append(('logica_value', pick()))
+    self.atom_bound |= set(new)
+    if npos and name not in self.macros and rnd.random() < (self.coln_p if name in EXT else 3 * self.coln_p):
+      # positional argument N addressed by its documented name colN (all, or only a suffix)
+      k = rnd.randrange(npos)
+      nargs = [('col%d' % i, args[i]) for i in range(k, npos)] + nargs
+      args = args[:k]
     return Atom(name, args, nargs), new
 
   def int_expr(self, bound, depth=0):
@@ -159,13 +167,21 @@ class Builder:
         bound.append(v)
       elif kind == 'in':
         l = ListE([self.int_expr(bound, 1) for _ in range(rnd.randint(1, 3))])
-        if rnd.random() < 0.6:
+        if rnd.random() < 0.3:
+          # membership of a computed value: one solution per equal element (duplicates count)
+          items.append(InP(rnd.choice([Bin('+', Var(rnd.choice(bound)), Num(1)), Num(rnd.choice([0, 1, 2])),
+                                       Builtin('Greatest', [Var(rnd.choice(bound)), Num(0)])]),
+                           ListE(list(l.items) + [rnd.choice(l.items)])))
+        elif rnd.random() < 0.6:
           v = self.fresh(bound)
           items.append(InP(Var(v), l))
           bound.append(v)
         else:
+          # membership test of an already bound variable: the compiler reads `v in l` as an
+          # unnesting and reports a circular dependency when l depends on v, also through
+          # assignments; so v and the variables of l must be bound directly by atoms
           v = rnd.choice(bound)
-          if v in variables(l):
+          if v not in self.atom_bound or not (set(variables(l)) <= self.atom_bound - {v}):
             v = self.fresh(bound)
             bound.append(v)
           items.append(InP(Var(v), l))
@@ -218,7 +234,7 @@ def core_case(seed):
     name = names[li]
     b = Builder(rnd, preds, macros)
     npos = rnd.randint(0, 2)
-    named = rnd.choice([[], [], ['a'], ['k', 'b']])
+    named = rnd.choice([[], [], ['a'], ['k', 'b'], ['a', 'b', 'c']])
     if npos == 0 and not named:
       npos = 1
     functional = rnd.random() < 0.35
@@ -231,7 +247,7 @@ def core_case(seed):
       preds[name] = (len(fv), [], True)
       ints[name] = 'macro'
       continue
-    nrules = rnd.choice([1, 1, 2, 3])
+    nrules = rnd.choice([1, 1, 2, 3]) if len(named) < 3 else rnd.choice([2, 3])
     for ri in range(nrules):
       natoms = rnd.randint(1, 3 if li == 0 else 2)
       pool = None
@@ -255,7 +271,7 @@ def core_case(seed):
       if rnd.random() < 0.3 and len(items) >= 2:
         # nested disjunction
         k = rnd.randrange(len(items))
-        if isinstance(items[k], Atom) and items[k].pred in ('E', 'F'):
+        if isinstance(items[k], Atom) and items[k].pred in ('E', 'F') and len(items[k].args) == 2:
           other = 'F' if items[k].pred == 'E' else 'E'
           alt = Atom(other, list(reversed(items[k].args)), [])
           items[k] = Disj([items[k], alt if rnd.random() < 0.5 else Conj([alt, A('G', items[k].args[0])])])
@@ -268,7 +284,10 @@ def core_case(seed):
         else:
           head_named.append((n, b.int_expr(bound, 1)))
       value = b.int_expr(bound, 1) if functional else None
-      if len(head_named) > 1 and ri > 0 and rnd.random() < 0.5:
+      if len(head_named) > 2 and ri > 0:
+        k = rnd.randrange(1, len(head_named))
+        head_named = head_named[k:] + head_named[:k]     # a rotation is not its own inverse
+      elif len(head_named) > 1 and ri > 0 and rnd.random() < 0.5:
         head_named.reverse()     # rules of one predicate may list named arguments in any order
       rules.append(Rule(name, head_args, head_named, value, False, body,
                         rnd.choice(['=', '=', 'logica_value'])))
@@ -393,9 +412,10 @@ def agg_case(seed):
     if two and rnd.random() < 0.6:
       inner = rnd.choice([[A('W', x, z, y)], [A('E', x, y), A('F', y, z)],
                           [A('E', x, y), Cmp('!=', y, z)]])
-    e = rnd.choice([y, Bin('+', y, Num(1)), Bin('+', y, x)])
+    e = rnd.choice([y, Bin('+', y, Num(1)), Bin('+', y, x), x, Bin('+', x, Num(1)), Num(1)] + ([z, Bin('-', x, z)] if two else []))
     agg = AggE(op, e, Conj(inner), style)
-    if kind == 'expr_head' and style != 'concise':
+    if kind == 'expr_head' and style == 'brace':
+      # ((combine ...) directly as a call argument is rejected by the parser; concise needs a variable)
       rules.append(Rule('P', [x, agg], body=Conj(outer)))
     else:
       use = rnd.choice(['out', 'cmp', 'isnull'])
@@ -834,9 +854,12 @@ def layered_case(seed):
 def orderby_case(seed):
   rnd = random.Random(seed ^ 0xc18)
   x, y, z, s = Var('x'), Var('y'), Var('z'), Var('s')
-  body = rnd.choice(['single', 'join', 'multi', 'distinct', 'agg', 'expr', 'multi'])
+  body = rnd.choice(['single', 'join', 'multi', 'distinct', 'agg', 'expr', 'multi', 'multi_nil', 'beam', 'functor'])
   rules = []
   cols = ['col0', 'col1']
+  pre_ann = []
+  depths = {}
+  made = None
   if body == 'single':
     rules.append(Rule('O', [x, y], body=A('E', x, y)))
   elif body == 'join':
@@ -849,6 +872,26 @@ def orderby_case(seed):
   elif body == 'agg':
     rules.append(Rule('O', [x], [('s', Agg('Sum', y))], distinct=True, body=A('E', x, y)))
     cols = ['col0', 's']
+  elif body == 'multi_nil':
+    # all but one rule compile to nil: the predicate keeps its clauses
+    rules.append(Rule('O', [x, y], body=A('E', x, y)))
+    rules.append(Rule('O', [x, y], body=A('nil', x, y)))
+  elif body == 'beam':
+    # a recursive ordered/limited predicate: every generation is the first K rows of what the
+    # rules derive from the previous generation (depth+1 applications from empty)
+    d = rnd.choice([1, 2])
+    rules.append(Rule('O', [x, y], body=A('E', x, y)))
+    rules.append(Rule('O', [y, rnd.choice([Bin('+', z, Num(1)), z, Bin('-', Num(7), z)])],
+                      body=Conj([A('O', x, y), A('F', y, z)])))
+    pre_ann.append('@Recursive(O, %d);' % d)
+    depths['O'] = d
+  elif body == 'functor':
+    # the ordered/limited predicate sits between a functor and its argument: the clone made by
+    # `:=` must keep the clauses
+    rules.append(Rule('Src', [x, y], body=A('E', x, y)))
+    rules.append(Rule('Alt', [x, y], body=rnd.choice([A('F', x, y), A('F', y, x)])))
+    rules.append(Rule('O', [x, y], body=A('Src', x, y)))
+    made = 'Src'
   else:
     rules.append(Rule('O', [Bin('+', x, Num(1)), Bin('-', y, x)], body=A('E', x, y)))
   # ordering: one or two keys, asc/desc
@@ -860,11 +903,11 @@ def orderby_case(seed):
     keys, limit = [], 0      # a limit without any order: only K=0 has a defined meaning
   form = rnd.choice(['annotation', 'denotation', 'annotation_desc_item'])
   ann = []
-  if form == 'denotation' and body not in ('multi', 'distinct', 'agg'):
+  if form == 'denotation' and body not in ('multi', 'distinct', 'agg', 'beam'):
     den = (' order_by(%s)' % ', '.join('"%s%s"' % (c, ' desc' if d else '') for c, d in keys)) if keys else ''
     if limit is not None:
       den += ' limit(%d)' % limit
-    rules[0].denotation = den
+    [r for r in rules if r.pred == 'O'][0].denotation = den
   else:
     if not keys:
       pass
@@ -900,10 +943,24 @@ def orderby_case(seed):
     rules.append(Rule('R2', [y], body=O(x, y)))
     rules.append(Rule('C', [x, y], body=Conj([A('R1', x), A('R2', y)])))
   extra = rnd.choice([None, None, '@NoInject(O);', '@With(O);', '@NoWith(O);'])
-  if extra:
+  if extra and body != 'beam':
     ann.append(extra)
-  prog = Program(rules, ann, ext=EXT)
-  c = Case(prog, 'orderby', K=3 if body in ('single', 'distinct', 'expr', 'agg') and ckind not in ('selfjoin', 'two_readers') else 2,
+  K = 3 if body in ('single', 'distinct', 'expr', 'agg', 'multi_nil') and ckind not in ('selfjoin', 'two_readers') else 2
+  if made:
+    # C2 := C(Src: Alt) written by the user; the reference sees the hand-substituted program in
+    # which the clones carry the same clauses
+    ren = {'Src': 'Alt', 'O': 'O_m', 'C': 'C2', 'R1': 'R1_m', 'R2': 'R2_m'}
+    clones = [rename_rule_preds(r, ren) for r in rules if r.pred in ('O', 'C', 'R1', 'R2')]
+    user = Program(rules, pre_ann + ann + ['C2 := C(Src: Alt);'], ext=EXT)
+    ref_prog = Program(rules + clones, [], ext=EXT)
+    c = Case(ref_prog, 'orderby', K=2, notes='%s/%s/%s/limit=%s/%s' % (body, form, ckind, limit, extra))
+    c.compile_text = user.text()
+    c.order_specs = {'O': (keys, limit), 'O_m': (keys, limit)}
+    c.ordered_preds = {'O'}
+    c.check = ['O', 'C', 'C2']
+    return c
+  prog = Program(rules, pre_ann + ann, ext=EXT)
+  c = Case(prog, 'orderby', K=K, depths=depths,
            notes='%s/%s/%s/limit=%s/%s' % (body, form, ckind, limit, extra))
   c.order_specs = {'O': (keys, limit)}
   c.ordered_preds = {'O'}
